@@ -45,7 +45,7 @@ def owners(clause):
         return ["C03"]
     if a == "q":
         return {
-            1: ["C06"], 3: ["C03"], 4: ["C08"], 5: ["C02", "C07", "C18"], 6: ["C05"], 10: ["C03"],
+            1: ["C06"], 3: ["C03"], 4: ["C08"], 5: ["C02", "C07", "C18"], 6: ["C05"], 10: ["C03", "C08"],
             11: ["C05"], 12: ["C05"], 13: ["C05"], 14: ["C08"],
         }.get(b, ["C05"])
     if a == "sch":
@@ -125,6 +125,13 @@ def make_worlds(tier):
         w = worlds.gen_feasible_world(rnd)
         w["class"] = "feasible"
         ws.append(w)
+    # preemptive policies: TASK_PREEMPT / TASK_MIGRATION handlers, running tasks in the frontier
+    n_pre = 16 if tier == "quick" else 800
+    for i in range(n_pre):
+        w = worlds.gen_world(rnd, kinds=("edf", "lsf", "hostile"))
+        w["sched"]["preemptive"] = True
+        w["class"] = "preemptive"
+        ws.append(w)
     # the optimisation-based planners inside simulate() (future placements, explicit workers, plan-ahead)
     n_plan = 12 if tier == "quick" else 600
     for i in range(n_plan):
@@ -162,6 +169,8 @@ def crash_key(world, tr):
         probs = re.findall(r"\[([^\]]*)\]", msg)
         zero = bool(probs) and any(float(x) == 0.0 for x in probs[-1].split(","))
         return f"crash:ValueError: sum of the probability of children != 1:a_child_was_cancelled_before_the_conditional_completed={zero}"
+    if sc.get("preemptive"):
+        ctx += ":preemptive_policy=True"
     return f"crash:{m}{ctx}"
 
 
@@ -267,7 +276,7 @@ def check(pid: str, tier: str, res: CheckResult | None = None) -> CheckResult:
                     )
     res.extra["sim_corpus"] = {
         "worlds": len(c["worlds"]),
-        "by_class": {k: sum(1 for w in c["worlds"] if w["class"] == k) for k in ("directed", "finding", "random", "feasible", "planner")},
+        "by_class": {k: sum(1 for w in c["worlds"] if w["class"] == k) for k in ("directed", "finding", "random", "feasible", "preemptive", "planner")},
         "by_policy": {k: sum(1 for w in c["worlds"] if w["kind"] == k) for k in sorted({w["kind"] for w in c["worlds"] if w["kind"]})},
         "records_validated": c["stats"]["records"],
         "event_and_row_counts": c["counts"],
